@@ -45,12 +45,20 @@ func unwrapSCION(b []byte) (payload []byte, ok bool) {
 			ok = false
 		}
 	}()
-	var scn slayers.SCION
-	if err := scn.DecodeFromBytes(b, gopacket.NilDecodeFeedback); err != nil || scn.NextHdr != slayers.L4UDP {
+	var (
+		scn slayers.SCION
+		hbh slayers.HopByHopExtnSkipper
+		e2e slayers.EndToEndExtn
+		udp slayers.UDP
+	)
+	// with or without extension headers (packet authenticator, timestamp options)
+	parser := gopacket.NewDecodingLayerParser(slayers.LayerTypeSCION, &scn, &hbh, &e2e, &udp)
+	parser.IgnoreUnsupported = true
+	decoded := make([]gopacket.LayerType, 4)
+	if err := parser.DecodeLayers(b, &decoded); err != nil {
 		return nil, false
 	}
-	var udp slayers.UDP
-	if err := udp.DecodeFromBytes(scn.Payload, gopacket.NilDecodeFeedback); err != nil {
+	if len(decoded) < 2 || decoded[len(decoded)-1] != slayers.LayerTypeSCIONUDP {
 		return nil, false
 	}
 	return udp.Payload, true
